@@ -9,11 +9,24 @@ namespace Martian.Vdr
 
 def endsSlash (p : Path) : Bool := p.getLast? == some '/'
 
+/-- a doubled separator somewhere in the path -/
+def hasDbl : Path → Bool
+  | [] => false
+  | a :: r => (a == '/' && r.head? == some '/') || hasDbl r
+
+/-- without its trailing separators -/
+def stripN : Nat → Path → Path
+  | 0, p => p
+  | n + 1, p => if endsSlash p then stripN n p.dropLast else p
+
+def stripSlashes (p : Path) : Path := stripN p.length p
+
 /-- `CfgOK c s` -/
 def cfgOKB (c : Cfg) (s : St) : Bool :=
   c.argFiles.all (fun kv => !(c.namesOf kv.1).isEmpty || kv.2.isEmpty) &&
-  c.argFiles.all (fun kv => kv.2.all fun f => !endsSlash f) &&
-  s.disk.all (fun d => !endsSlash d.path) &&
+  c.argFiles.all (fun kv => kv.2.all fun f =>
+    !endsSlash f || (kv.2.contains (stripSlashes f) && !endsSlash (stripSlashes f))) &&
+  s.disk.all (fun d => !endsSlash d.path && !hasDbl d.path) &&
   decide (c.initArgs = s.fileArgs) && decide (c.initPost = s.postNodes)
 
 /-- `PathKinds disk` -/
